@@ -1,6 +1,7 @@
 CONSTANTS
   Keys = {"a", "b"}
   Clients = {"c1"}
+  Vals = {1}
   MaxVer = 1
   MaxBatch = 2
   MaxMsg = 1
